@@ -309,6 +309,12 @@ TRANSPARENT = {
 
 
 _PARAM_TABLE = None
+_POS = re.compile(r"(\{(?:closure|async block|async fn body|async closure)@[^:}]+):\d+:\d+: \d+:\d+")
+
+
+def norm_ty(t):
+    """type strings name closures by source position; positions move with every edit above them and are not part of a parameter's identity"""
+    return _POS.sub(r"\1", t) if "@" in t else t
 
 
 def _param_table():
@@ -367,7 +373,7 @@ class Body:
         ent = tab.get(dp)
         if ent is not None and len(ent) == raw["argc"]:
             for i, (nm, ty) in enumerate(ent, start=1):
-                if nm is None or raw["locals"][i] != ty:
+                if nm is None or norm_ty(raw["locals"][i]) != norm_ty(ty):
                     continue
                 out = [(n, p) for n, p in out if not (p[0] == i and not p[1])] + [(nm, [i, []])]
                 self._frozen.add((i, "[]"))
@@ -384,7 +390,7 @@ class Body:
                 for n, p in out:
                     if p[0] == 1 and len(p[1]) == 1 and p[1][0][0] == "f" and p[1][0][1] < len(pent):
                         k = p[1][0][1]
-                        if pent[k][0] is not None and pent[k][1] == ptys[k]:
+                        if pent[k][0] is not None and norm_ty(pent[k][1]) == norm_ty(ptys[k]):
                             new.append((pent[k][0], p))
                             self._frozen.add((1, json.dumps(p[1])))
                             continue
